@@ -103,10 +103,9 @@ Definition cstep1 (donly : bool) (st : list cmode) (b : osl) (c : ascii) : res c
       | kDq => Ok (r, app_non c b)
       | _ => Ok (st, app_non c b)
       end
-  | CSq :: r =>
+  | CSq :: r =>                             (* scanned like a string literal (repo fix 684e2ba) *)
       match k with
       | kBs => Ok (CEsc :: st, app_non c b)
-      | kSl => Ok (CSlash :: st, b)
       | kSq => Ok (r, app_non c b)
       | _ => Ok (st, app_non c b)
       end
